@@ -55,9 +55,12 @@ def model_phase(q):
     # implementation models against the references (the leg-A result proper)
     for fmt in ("mus", "xmi"):
         tier = "quick" if q else "thorough"
-        r = vc.run_tlc("ConvImplMC", cfg="ConvImplMC_%s_%s.cfg" % (fmt, tier), timeout=120 if q else 3000, heap="8g", workers=jobs(),
+        r = vc.run_tlc("ConvImplMC", cfg="ConvImplMC_%s_%s.cfg" % (fmt, tier), timeout=300 if q else 3000, heap="8g", workers=jobs(),
                        tag="ConvImplMC-" + fmt)
-        r.scope = {"module": "ConvImplMC", "format": fmt, "max_events": (3 if fmt == "mus" else 2) if q else 3, "alphabet": 42 if fmt == "mus" else 33,
+        r.scope = {"module": "ConvImplMC", "format": fmt,
+                   "alphabet_1": {"what": "ConvMC enumeration", "symbols": 42 if fmt == "mus" else 33, "max_events": (3 if fmt == "mus" else 2) if q else 3},
+                   "alphabet_2": {"what": "controller / status table, range extremes, multi-byte delays", "symbols": 92 if fmt == "mus" else 78,
+                                  "max_events": 2 if q else 3},
                    "tempi": [500000, 480000] if fmt == "xmi" else None}
         r.witnesses = [ln.strip().strip('"').replace('\\"', '"') for ln in r.out.splitlines() if "WITNESS" in ln and ln.lstrip().startswith('"')]
         runs.append(r)
@@ -74,6 +77,9 @@ def model_phase(q):
 
 def model_counterexample(out):
     """the state TLC prints for a violated NoBad: the score prefix and the labels"""
+    a = re.findall(r"Assumption line \d+.*? is false", out)
+    if a:
+        return a[0] + " (a pinned witness of the converter model no longer evaluates as recorded)"
     m = re.findall(r"/\\ bad = (\{[^\n]*\})", out)
     sc = re.findall(r"/\\ sc = (<<.*?>>)\n/\\", out, re.S)
     return "bad = %s for sc = %s" % (m[-1] if m else "?", re.sub(r"\s+", " ", sc[-1])[:400] if sc else "?")
@@ -190,10 +196,18 @@ def check_c17(pid, tier, replay):
         if r.violation or not r.ok:
             if r.scope["module"] == "ConvImplMC":
                 print("MODEL-DRIFT: ConvImplMC %s reports %s: %s (the converter MODEL does not conform to the reference; not a verdict on the code)"
-                      % (r.scope, r.violation or ("rc=%s" % r.rc), model_counterexample(r.out) if r.violation else r.out[-300:].replace("\n", " ")))
+                      % (r.scope, r.violation or ("rc=%s" % r.rc), model_counterexample(r.out) if (r.violation or "Assumption line" in r.out) else r.out[-300:].replace("\n", " ")))
             else:
                 print("MODEL-DRIFT: ConvMC %s reports %s (the reference interpreter is inconsistent with itself; not a verdict on the code)"
                       % (r.scope, r.violation or ("rc=%s" % r.rc)))
+    ncrash = len({f.history for f in failures if f.what == "mus-delay-overflow-crash"})
+    coverage["refinement"]["crashes_predicted_by_model"] = c.get("refCrashPredicted", 0)
+    coverage["refinement"]["crashes_observed_in_mus2mid_writevarlen"] = ncrash
+    # scores whose delay arithmetic overflows int32 (undefined in C, `unmodelled` in the model) may or may not crash
+    coverage["refinement"]["scores_with_undefined_delay_arithmetic"] = c.get("refUndefined", 0)
+    if not (c.get("refCrashPredicted", 0) <= ncrash <= c.get("refCrashPredicted", 0) + c.get("refUndefined", 0)):
+        print("MODEL-DRIFT: spec/Mus2Mid.tla predicts a crash of mus2mid_writevarlen for %d recorded scores (+ %d with undefined int32 overflow), %d were observed (refinement leg C)"
+              % (c.get("refCrashPredicted", 0), c.get("refUndefined", 0), ncrash))
     if c.get("drifted", 0):
         print("MODEL-DRIFT: %d of %d recorded converter outputs differ from spec/Mus2Mid.tla / spec/Xmi2Mid.tla (refinement leg C); first: %s"
               % (c["drifted"], c.get("refined", 0), json.dumps(stats.get("drift", [])[:2])))
